@@ -204,6 +204,15 @@ EnvRecv ==
   /\ E' = [E EXCEPT !.n = @ + 1]
   /\ hist' = Append(hist, HE(0, "erecv"))
 
+\* ... and closes send handle 1 (the last send clone goes away while receivers are blocked)
+EnvClose ==
+  /\ EnvPoint /\ "eclose" \in EnvKinds /\ E.n < MaxEnv /\ L.hs["S"][1] = "open"
+  /\ LET r == MemClose(K, L, "S", 1) IN
+     /\ L' = r.m /\ K' = r.q
+     /\ Feed(EvH("close", "S", 1, 0, "ok", r.m))
+  /\ E' = [E EXCEPT !.n = @ + 1]
+  /\ hist' = Append(hist, HE(0, "eclose"))
+
 Quiesce ==
   /\ Quiescent(K) /\ E.qat # K.nh + 1
   /\ E' = [E EXCEPT !.qat = K.nh + 1]
@@ -219,7 +228,7 @@ Next ==
   \/ RunHandle
   \/ \E t \in Task : ClientInit(t) \/ ClientChoose(t) \/ ClientRet(t) \/ ClientFin(t) \/ LibStep(t)
   \/ \E t \in Task : EnvCancel(t) \/ EnvNative(t)
-  \/ EnvSend \/ EnvRecv
+  \/ EnvSend \/ EnvRecv \/ EnvClose
   \/ (~Start /\ Quiesce)
 
 Spec == Init /\ [][Next]_vars
